@@ -139,8 +139,17 @@ def run(ctx):
             for val, tgt in zip(vals, tg):
                 atoms = g.describe_all(bb, val, vals)
                 for (x, y) in ranges:
-                    if any(a in ("(Le(%s,%s))" % (x, y), "(Ge(%s,%s))" % (y, x), "(Eq(%s,%s))" % (x, y), "(Eq(%s,%s))" % (y, x)) for a in atoms):
-                        skip.update(pg.edge_node(bb, tgt))
+                    from prov import prov_eq, _split_top as _st
+                    for a in atoms:
+                        m_ = re.match(r"^\((Le|Ge|Eq)\((.*)\)\)$", a)
+                        if not m_:
+                            continue
+                        ps_ = _st(m_.group(2))
+                        if len(ps_) != 2:
+                            continue
+                        l_, r_ = ps_
+                        if (m_.group(1) in ("Le", "Eq") and prov_eq(l_, x) and prov_eq(r_, y)) or (m_.group(1) in ("Ge", "Eq") and prov_eq(l_, y) and prov_eq(r_, x)):
+                            skip.update(pg.edge_node(bb, tgt))
         zok = set()
         for z in zs:
             zok.update(v.ok_nodes(z.bb) or [("t", z.bb)])
